@@ -10,7 +10,9 @@ cp "$SRC/demo.py" demo_X.py
 timeout 600 /venv/bin/python demo_X.py > /tmp/confirm_demo_clean_$ID$L$ROUND.out 2>&1; RC_CLEAN=$?
 git apply "$SRC/patch.diff" || { echo "patch does not apply on HEAD"; cd /; git -C /repo worktree remove --force "$WT"; exit 2; }
 timeout 600 /venv/bin/python demo_X.py > /tmp/confirm_demo_mut_$ID$L$ROUND.out 2>&1; RC_MUT=$?
-/venv/bin/python -m pytest -q -p no:cacheprovider --timeout=900 --continue-on-collection-errors -rA 2>&1 | grep -E "^PASSED" | sed 's/PASSED //; s#/#.#g; s/\.py::/::/' | sort > /tmp/confirm_passed_$ID$L$ROUND.txt
+# the 43 stable tests by node id (the other tests of the suite fail on the unchanged tree already)
+NODES=$(sed 's#^src\.#src/#; s#::#.py::#' /tmp/wt/stable_tests.txt | tr '\n' ' ')
+/venv/bin/python -m pytest -q -p no:cacheprovider --timeout=900 --continue-on-collection-errors -rA $NODES 2>&1 | grep -E "^PASSED" | sed 's/PASSED //; s#/#.#g; s/\.py::/::/' | sort > /tmp/confirm_passed_$ID$L$ROUND.txt
 MISSING=$(sort /tmp/wt/stable_tests.txt | comm -23 - /tmp/confirm_passed_$ID$L$ROUND.txt | wc -l)
 cd /; git -C /repo worktree remove --force "$WT"
 echo "$ID-$L$ROUND: demo clean rc=$RC_CLEAN, demo mutated rc=$RC_MUT, stable tests missing=$MISSING"
